@@ -37,6 +37,14 @@ def layoutTag (L : Layout) : String :=
   let ax (n : Nat) (p : Bool) : String := (if p then "p" else "o") ++ (if n ≥ 3 then "3+" else toString n)
   s!"{ax L.nx L.px}.{ax L.ny L.py}.{ax L.nz L.pz}"
 
+/-- marker counters: cell `j` of subgrid `i` holds `(131 i + 17 j + seed) % 997 + 1` -/
+def markerCells (s : St) (seed : Nat) : List (List Nat) :=
+  (List.range s.cp.rows.length).map fun i =>
+    (List.range (s.L.mx * s.L.my * s.L.mz)).map fun j => (131 * i + 17 * j + seed) % 997 + 1
+
+def showCells (c : List (List Nat)) : String :=
+  "|".intercalate (c.map fun r => ",".intercalate (r.map toString))
+
 def step (s : St) : List String → St × String
   | ["tbl", "o2i", d] => (s, s!"tbl {outToInDir (nat! d)}")
   | ["tbl", "cout", sp, d] => (s, s!"tbl {if compatOutAt (nat! sp) (nat! d) then 1 else 0}")
@@ -97,6 +105,14 @@ def step (s : St) : List String → St × String
     if !s.have_ then (s, "bad-op") else
     let v := foldVisits s.cp
     (s, "fold" ++ String.join (v.map (fun (a, b) => s!" {a}:{b}")) ++ (if v.isEmpty then " #fold-empty" else " #fold"))
+  | ["foldcells", sd] =>
+    if !s.have_ then (s, "bad-op") else
+    let r := foldCells s.L s.cp (markerCells s (nat! sd))
+    (s, "foldcells " ++ showCells r ++ (if s.cp.originals.isEmpty then " #foldcells-nocopies" else " #foldcells"))
+  | ["pushcells", sd] =>
+    if !s.have_ then (s, "bad-op") else
+    let r := pushCells s.L s.cp (markerCells s (nat! sd))
+    (s, "pushcells " ++ showCells r ++ (if s.cp.originals.isEmpty then " #pushcells-nocopies" else " #pushcells"))
   | _ => (s, "bad-op")
 
 def main : IO Unit := runDriver step ({} : St)
